@@ -3,6 +3,7 @@ CONSTANTS
   Mode = "plain"
   MaxFiles = 0
   GenKinds = {"use", "forward", "import"}
+  GenPre = {"none"}
   GenWhere = {"root", "sub"}
 INVARIANTS EmitPlain
 CHECK_DEADLOCK FALSE
